@@ -520,6 +520,9 @@ def run(ctx):
     ctx.note("cultures_for_standard_letters", len(cn))
     ctx.check_cases("iso.standard-letters.by-culture", [(n, False) for n in cn] + [(n, True) for n in cn[::4]], oracle_culture,
                     exhaustive=ctx.thorough)
+    # the built-in pattern objects keep their answers whatever other patterns are created around them -----------
+    import texthist
+    texthist.run_history(ctx, [("width", ctx.scale(4, 80))])
     # model correspondence (ISO formatters / parsers and the PyIso transcription) ----------------------
     import c07
     c07.run_iso_correspondence(ctx, "c17")
@@ -536,6 +539,9 @@ def replay_op(op, failure):
         case = ast.literal_eval(op)
         fn = {"iso.standard-letters": oracle_culture, "iso.date": oracle_date, "iso.time": oracle_time, "iso.datetime": oracle_datetime,
               "iso.instant": oracle_instant, "iso.offset": oracle_offset}
+        if name == "text.history":
+            import texthist
+            return texthist.oracle_history(case)
         for k in sorted(fn, key=len, reverse=True):
             if name.startswith(k):
                 return fn[k](case)
